@@ -46,7 +46,8 @@ P("C01", "exploration",
   "selections: generation order, reversed, permuted, exactly t, duplicates anywhere, duplicate run in front, surplus, and for n<=5 "
   "(thorough 6) every subset of size >= t in every order; after each recovery every report is decrypted with the key from public API "
   "and parsed by an independent framing parser. distinct = (t, surplus class, pattern, length class, aux class, source) tuples + "
-  "exhaustive (t, n) configurations.",
+  "exhaustive (t, n) configurations. Plus: thresholds 127,128,129,256,257 in every run, occasional surplus of 100+ reports, and a "
+  "length sweep (every measurement length and every aux length 0..420, thorough 0..1200).",
   ["share points come from the OS RNG and are not controlled: each run samples them afresh",
    "success is only demanded when the monitor itself counts >= t distinct x in the selection (documented share layout)"],
   {"recover": 5000, "decrypt": 5000, "exhaustive_selections": 1000, "encode_decode": 2000},
@@ -81,7 +82,8 @@ P("C03", "exploration",
   "pairs and sequences (2..6) of reports of one (measurement, epoch, t) with different associated data (1..600 bytes, thorough 2 KiB, "
   "common prefixes, single-byte differences): longest run from the first differing payload byte on which c1^c2 == p1^p2 (run >= 8 is a "
   "witness; > 200 bytes = unbounded reuse); every 16-byte window of every encoded report tried as key and every 32-byte window as key "
-  "seed; uniform aux scanned in the clear. distinct = (measurement length, long-tail flag, sequence length) and window shapes.",
+  "seed, and (calibrated against the true interpolated key) as the SHARING key that opens the share's encrypted key seed; thresholds "
+  "2..5 and 127..200; epochs of 0..64 bytes; every 8-byte window of uniform aux scanned in the clear. distinct = report pairs and window cases.",
   ["XOR-relation witnesses need a run of >= 8 bytes", "payloads rebuilt with the harness' own framing"],
   {"pair_examined": 3000, "pairs_with_long_tail": 300, "window_as_key": 20000, "window_as_seed": 20000, "aux_scan": 100},
   [REL],
@@ -94,7 +96,8 @@ P("C03", "exploration",
 P("C04", "exploration",
   "enumerated neighbour families of (measurement, epoch, threshold): every split of a concatenation m||e (|m||e|<=12), prefix pairs, "
   "swaps, empty components, threshold vs threshold^2^b for all 32 b and +-1, bytes moved between threshold / epoch / measurement, plus "
-  "unrelated triples; 2..9 independent clients per triple through Message::generate (different aux) and share_with_local_randomness; "
+  "digits of the epoch moved into a decimal / hex TEXT rendering of the threshold, long measurements differing in one byte at each "
+  "position class (0,31,32,63,64,65,99,127,128,165,166,199,last), unrelated triples; 2..9 independent clients per triple (also on fresh threads; a run-global set of share points) through Message::generate (different aux) and share_with_local_randomness; "
   "global injectivity maps for randomness / tag / key. distinct = triples.",
   ["thresholds above 1024 observe sample_local_randomness only (dealing is O(t))", ">= 128-bit values: chance collisions ignored"],
   {"sample_local_randomness": 20000, "combine": 3000, "injectivity_insert": 10000, "share_points_checked": 3000},
@@ -150,7 +153,7 @@ P("C07", "exploration",
   "trusts num-bigint; constants judged by orders/residuosity, not by value")
 
 P("C08", "fault_enumeration",
-  "(a) honest reports / adss shares (message and coin lengths to 5 000, thorough 100 000) / Shamir shares with 0..16 y: "
+  "(a) honest reports / adss shares (message and coin lengths to 5 000 and 65 535 / 65 536 / 70 000, thorough 100 000; ciphertext chunks around 2^16) / Shamir shares with 0..16 y: "
   "decode(encode(v)) == v and every field equal to ground truth under the independent layout parser; (b) differential decoding of "
   "hostile strings for Share::try_from, adss::Share::from_bytes, sta_rs::Share::from_bytes, Message::from_bytes, load_bytes, load_u32, "
   "AccessStructure::from_bytes: every prefix, every length field set to 21 boundary values, byte/bit faults at every offset, "
@@ -214,7 +217,8 @@ P("C12", "exploration",
   "4 independently keyed servers (tag sets incl. 0/255, adjacent tags, all 256; two servers with equal tag sets), inputs empty / 1 byte / "
   "64 B / 2-10 KiB / near-identical, >= 3 independent blind->eval->unblind->finalize rounds per (server, tag, input), verifiable and "
   "not; unblinded result compared with the server's direct evaluation of the unblinded input point; global injectivity of result "
-  "points and outputs; freshness sets for blinded requests and blinding scalars. distinct = (server, tag, input) per case.",
+  "points and outputs; freshness sets for blinded requests and blinding scalars; input-length sweep (every length 0..340, thorough "
+  "0..1100, on two servers x two tags). distinct = (server, tag, input) per case.",
   ["the unblinded input point is observed relationally as unblind(blind(x))"],
   {"rounds": 5000, "direct_evaluations": 5000, "verifications": 2000},
   [REL],
@@ -228,7 +232,9 @@ P("C13", "fault_enumeration",
   "(base public key, per-tag public key, whole key of another server, input point, output point, tag, c, s, whole proof) by: other "
   "honest value, +-G / 2x / negation / random multiple, identity, base point, +-1 / negation / bit flips (16 sampled, thorough all 256) "
   "/ zero / one for scalars, other registered and unregistered tags; reference verification procedure on every honest proof "
-  "(challenge over B, M, Z, t2, t3 recomputed with the Strobe hash; on mismatch the five one-element-dropped transcripts are tried). "
+  "(challenge over B, M, Z, t2, t3 recomputed with the Strobe hash; on mismatch the five one-element-dropped transcripts are tried); "
+  "calibrated adversarial prover: a public key built from the monitor's own scalars, the honest prover algorithm run on 10 false "
+  "claims (identity, base point, the input, neighbours of the true output, another key's evaluation, identity input). "
   "distinct = (component, variant, case).",
   ["tampering another tag's entry, or compensating base/tag changes, keep the commitment and must verify (excluded by the statement)"],
   {"tampered_verifications": 30000, "honest_proofs": 1000, "nonce_commitments_recomputed": 1000},
@@ -272,7 +278,9 @@ P("C16", "exploration",
   "thresholds 0..128, message and coin lengths {0,1,15,16,17,31,32,33,R-1,R,R+1,2R-1,2R,2R+1,1000 (thorough 20k/100k)} and random, "
   "uniform / zero content; t+2 shares from independent Commune::new(..).share() calls: fields other than the point byte-identical, "
   "points distinct and on one polynomial, any t recover, t-1 do not, threshold 0 never recovers, recovered sharing re-shares and "
-  "mixes with the originals, foreign transcripts rejected. distinct = (t, |M|, |R|, content classes).",
+  "mixes with the originals, foreign transcripts rejected (all-foreign, and one genuine + t-1 foreign; in half of the cases the foreign "
+  "sharing, or the same (M, R) under another threshold, is shared first on the same thread), lists with repeated shares recover, "
+  "thresholds 127..257 occasionally. distinct = (t, |M|, |R|, content classes).",
   ["a transcript equal to the default is not asserted (would copy an internal label)"],
   {"share": 20000, "recover": 3000, "recover_mixed": 1000, "recover_t0": 100, "recover_foreign_transcript": 300},
   [REL],
@@ -285,7 +293,8 @@ P("C17", "exploration",
   "multi-byte UTF-8 / control characters, 2t shares per case: strict JSON, base64 fields, equality with the core library's key and "
   "tag, share equal to a core share but for its point; grouping with t, t+1, 2t shares and with the seven selection patterns of C01 "
   "(repeats anywhere / in front, permutations, surplus), t-1 shares (also padded with repeats), "
-  "mixtures below every threshold, four wrong epochs. distinct = (t, measurement length, epoch).",
+  "mixtures below every threshold, eight wrong epochs (incl. whitespace-edged), whitespace-edged epochs, and sequences of consecutive "
+  "create_share calls whose epoch||measurement bytes coincide (boundary shifts). distinct = (t, measurement length, epoch).",
   ["star-wasm is built as an rlib and called natively (wasm-bindgen glue not exercised)"],
   {"create_share": 10000, "group_shares": 3000, "group_shares_below_threshold": 1000, "group_shares_mixture": 1000, "group_shares_wrong_epoch": 3000},
   [REL],
@@ -294,7 +303,7 @@ P("C17", "exploration",
   "core library behaviour itself is covered by C01/C02/C04")
 
 P("C18", "exploration",
-  "scenarios of 1..300 groups, group sizes 1..2t around t in {1,2,3,5,8} (t-1, t, t+1 frequent), one report per client, aux absent / "
+  "scenarios of 1..300 groups, group sizes 1..2t around t in {1,2,3,5,8} (t-1, t, t+1 frequent) plus hot groups of 64..200 reports, one report per client, aux absent / "
   "empty / unique client id, input in generation / reversed / shuffled order, rayon pools of 1,2,3,4,8,16 threads; output "
   "canonicalised to measurement -> sorted aux multiset (empty == absent) and compared with the expected map and across all runs of a "
   "scenario; the verif-hooks callback records bucket -> worker thread and injects seeded jitter. states = distinct (pool size, "
